@@ -224,7 +224,8 @@ func (g *genCtx) item(class string) Item {
 			return in(class, csi("?u"))
 		}
 	case "query":
-		return in(class, csi(pick(r, []string{"c", "0c", "1c", ">c", ">0c", ">1c", "5n", "6n", "6n", "?u", "n", "0n", "7n", "?6n", "=c"})))
+		return in(class, csi(pick(r, []string{"c", "0c", "1c", ">c", ">0c", ">1c", "5n", "6n", "6n", "?u", "n", "0n", "7n", "?6n", "=c",
+			"0;1c", "1;0c", ";1c", "1;c", "2;0;0c", "0;0c", "5;6n", "6;5n", "0;6n", "6;0n", ";6n", "6;n", "?1u", "?;u", ">5;0c", "5;n", "05n", "006n"})))
 	case "esc":
 		return in(class, pick(r, [][]byte{{27, 'D'}, {27, 'M'}, {27, 'c'}, {27, '='}, {27, '>'}, {27, '\\'}, {27, '7'}, {27, '8'},
 			{27, '(', 'B'}, {27, ')', '0'}, {27, '*', 'A'}, {27, '+', 'B'}, {27, '#', '8'}, {27, ' ', 'F'}, {27, '%', 'G'}, {27, '(', '%', '5'},
@@ -367,6 +368,41 @@ func (g *genCtx) macro(name string) []Item {
 			goTo(y, pick(r, []int{g.w - 1, g.w - 2, g.w - 3, r.intn(g.w), 0, 1}))
 			out = append(out, g.item(pick(r, []string{"textwide", "text", "erase", "erase", "textwide"})))
 		}
+	case "wide-splice":
+		// one run alternating narrow and wide characters, then edits whose ends fall inside
+		// wide characters (splices needing every piece: left part, blank, insert, blank, right part)
+		y := r.intn(g.h)
+		goTo(y, 0)
+		var sb strings.Builder
+		for x := 0; x+2 < g.w; {
+			if r.chance(1, 2) {
+				sb.WriteString(pick(r, wideRunes))
+				x += 2
+			} else {
+				sb.WriteByte(byte('a' + r.intn(26)))
+				x++
+			}
+		}
+		add("textwide", sb.String())
+		for k, n := 0, 1+r.intn(3); k < n; k++ {
+			if r.chance(1, 3) {
+				out = append(out, g.item("sgr"))
+			}
+			goTo(y, r.intn(g.w))
+			cnt := 1 + r.intn(4)
+			switch r.intn(6) {
+			case 0, 1:
+				add("erase", fmt.Sprintf("\x1b[%dX", cnt))
+			case 2:
+				add("erase", fmt.Sprintf("\x1b[%dP", cnt))
+			case 3:
+				add("erase", pick(r, []string{"\x1b[K", "\x1b[1K"}))
+			case 4:
+				add("text", string(g.text(cnt, false, false)))
+			default:
+				add("textwide", pick(r, wideRunes))
+			}
+		}
 	case "autowrap-corners":
 		add("wrap", "\x1b[?7h")
 		if r.chance(1, 2) {
@@ -391,7 +427,7 @@ func (g *genCtx) macro(name string) []Item {
 	return out
 }
 
-var macroNames = []string{"save-resize-restore", "outside-region", "alt-roundtrip", "wide-edges", "autowrap-corners"}
+var macroNames = []string{"save-resize-restore", "outside-region", "alt-roundtrip", "wide-edges", "autowrap-corners", "wide-splice"}
 
 func (g *genCtx) sizePick() (int, int) {
 	r := g.r
@@ -416,16 +452,18 @@ func (g *genCtx) sizePick() (int, int) {
 // ---------------------------------------------------------------- profiles
 
 type profile struct {
-	name     string
-	weights  map[string]int
-	minLen   int
-	maxLen   int
-	grid     int // percent of cases on the grid buffer
-	gmode    int // percent of cases in grapheme mode
-	chunks   []int
-	sizes    func(g *genCtx) (int, int)
-	macros   int      // percent of positions filled by a macro scenario
-	macroSet []string // which macros (nil = all)
+	name         string
+	weights      map[string]int
+	minLen       int
+	maxLen       int
+	grid         int // percent of cases on the grid buffer
+	gmode        int // percent of cases in grapheme mode
+	chunks       []int
+	sizes        func(g *genCtx) (int, int)
+	gridGrapheme bool     // also run grapheme mode on the grid buffer (without the model)
+	shortWrites  int      // percent of cases whose backend short-writes
+	macros       int      // percent of positions filled by a macro scenario
+	macroSet     []string // which macros (nil = all)
 }
 
 func smallSizes(g *genCtx) (int, int) {
@@ -458,26 +496,26 @@ func withWeights(over map[string]int) map[string]int {
 }
 
 var profiles = map[string]*profile{
-	"general": {name: "general", gmode: 15, macros: 6, weights: withWeights(map[string]int{"resize": 2}), minLen: 4, maxLen: 40, grid: 25, chunks: []int{0, 0, 1, 3}},
-	"C01": {name: "C01", gmode: 15, macros: 8, weights: withWeights(map[string]int{"resize": 8, "badutf8": 6, "cursor": 16, "scroll": 12, "margins": 8, "erase": 12, "manyparams": 3, "oddcsi": 4, "textzero": 4}),
+	"general": {name: "general", shortWrites: 10, gmode: 15, macros: 6, weights: withWeights(map[string]int{"resize": 2}), minLen: 4, maxLen: 40, grid: 25, chunks: []int{0, 0, 1, 3}},
+	"C01": {name: "C01", shortWrites: 10, gmode: 20, gridGrapheme: true, macros: 8, weights: withWeights(map[string]int{"resize": 8, "badutf8": 6, "cursor": 16, "scroll": 12, "margins": 8, "erase": 12, "manyparams": 3, "oddcsi": 4, "textzero": 4}),
 		minLen: 4, maxLen: 60, grid: 30, chunks: []int{0, 1, 2, 3}, sizes: func(g *genCtx) (int, int) { return g.sizePick() }},
 	"C02": {name: "C02", gmode: 15, macros: 8, weights: withWeights(map[string]int{"resize": 5, "textwide": 20, "goto": 20, "erase": 14, "sgr": 10, "badutf8": 3}),
 		minLen: 6, maxLen: 50, grid: 25, chunks: []int{0, 1, 3}},
-	"C03": {name: "C03", gmode: 20, macros: 8, macroSet: []string{"wide-edges", "autowrap-corners", "outside-region"}, weights: map[string]int{"text": 30, "textwide": 20, "textlong": 15, "goto": 14, "wrap": 8, "cursor": 6, "sgr": 5, "crlf": 4, "margins": 2, "badutf8": 3, "c0": 3},
+	"C03": {name: "C03", gmode: 20, macros: 8, macroSet: []string{"wide-edges", "autowrap-corners", "outside-region", "wide-splice"}, weights: map[string]int{"text": 30, "textwide": 20, "textlong": 15, "goto": 14, "wrap": 8, "cursor": 6, "sgr": 5, "crlf": 4, "margins": 2, "badutf8": 3, "c0": 3},
 		minLen: 4, maxLen: 40, grid: 30, chunks: []int{0, 1, 3}},
 	"C04": {name: "C04", gmode: 8, macros: 8, macroSet: []string{"outside-region", "autowrap-corners", "save-resize-restore"}, weights: map[string]int{"cursor": 40, "c0": 15, "index": 12, "goto": 6, "margins": 8, "text": 10, "textwide": 3, "wrap": 3, "lf": 5, "crlf": 3},
 		minLen: 4, maxLen: 40, grid: 30, chunks: []int{0, 1}},
-	"C05": {name: "C05", gmode: 12, macros: 8, macroSet: []string{"wide-edges"}, weights: map[string]int{"erase": 35, "goto": 20, "text": 15, "textwide": 15, "textlong": 6, "sgr": 8, "wrap": 2, "crlf": 3},
+	"C05": {name: "C05", gmode: 12, macros: 10, macroSet: []string{"wide-edges", "wide-splice"}, weights: map[string]int{"erase": 35, "goto": 20, "text": 15, "textwide": 15, "textlong": 6, "sgr": 8, "wrap": 2, "crlf": 3},
 		minLen: 5, maxLen: 40, grid: 30, chunks: []int{0, 1}},
 	"C06": {name: "C06", gmode: 10, macros: 10, macroSet: []string{"outside-region", "autowrap-corners"}, weights: map[string]int{"scroll": 25, "margins": 14, "index": 14, "lf": 8, "goto": 12, "text": 12, "textwide": 5, "textlong": 6, "wrap": 4, "sgr": 4, "crlf": 4},
 		minLen: 5, maxLen: 40, grid: 30, chunks: []int{0, 1}},
-	"C07": {name: "C07", macros: 4, macroSet: []string{"wide-edges"}, weights: map[string]int{"sgr": 40, "text": 20, "textwide": 6, "erase": 12, "goto": 10, "scroll": 3, "manyparams": 3, "crlf": 3},
+	"C07": {name: "C07", macros: 6, macroSet: []string{"wide-edges", "wide-splice"}, weights: map[string]int{"sgr": 40, "text": 20, "textwide": 6, "erase": 12, "goto": 10, "scroll": 3, "manyparams": 3, "crlf": 3},
 		minLen: 5, maxLen: 40, grid: 30, chunks: []int{0, 1}},
 	"C09": {name: "C09", weights: map[string]int{"oddcsi": 25, "esc": 15, "osc": 15, "dcs": 10, "text": 20, "textwide": 4, "manyparams": 4, "sgr": 3, "cursor": 4, "query": 3, "mode": 3, "kbd": 3},
 		minLen: 3, maxLen: 30, grid: 10, chunks: []int{0, 1, 2, 3}},
 	"C10": {name: "C10", gmode: 12, macros: 8, weights: withWeights(map[string]int{"altscreen": 6, "scroll": 10, "index": 8, "textwide": 15, "lf": 8}),
 		minLen: 5, maxLen: 50, grid: 30, chunks: []int{0, 1}},
-	"C14": {name: "C14", macros: 8, macroSet: []string{"alt-roundtrip", "save-resize-restore"}, weights: withWeights(map[string]int{"query": 25, "kbd": 8, "altscreen": 4, "goto": 14, "resize": 3}),
+	"C14": {name: "C14", shortWrites: 35, macros: 8, macroSet: []string{"alt-roundtrip", "save-resize-restore"}, weights: withWeights(map[string]int{"query": 25, "kbd": 8, "altscreen": 4, "goto": 14, "resize": 3}),
 		minLen: 4, maxLen: 40, grid: 20, chunks: []int{0, 1, 3}},
 	"C17": {name: "C17", macros: 12, macroSet: []string{"alt-roundtrip"}, weights: map[string]int{"mode": 30, "altscreen": 15, "text": 15, "textwide": 4, "goto": 8, "kbd": 8, "margins": 5, "wrap": 6, "sgr": 4, "erase": 4, "scroll": 3, "lf": 4},
 		minLen: 5, maxLen: 40, grid: 20, chunks: []int{0, 1}},
@@ -498,10 +536,15 @@ func genCase(p *profile, r *prng) Case {
 	c := Case{W: g.w, H: g.h, Grid: r.intn(100) < p.grid, Chunk: pick(r, p.chunks)}
 	if r.intn(100) < p.gmode {
 		c.Mode = 1
-		c.Grid = false // grapheme mode is exercised on the default (span) buffer
+		// grapheme mode is modelled on the default (span) buffer; the grid buffer writes the
+		// runes of a cluster one by one, so it runs without the model (panics and monitors only)
+		c.Grid = p.gridGrapheme && r.chance(1, 3)
 	}
 	if c.Chunk >= 3 {
 		c.Chunk = 3 + r.intn(1000)
+	}
+	if p.shortWrites > 0 && r.intn(100) < p.shortWrites {
+		c.ShortWrites = 1 + r.intn(8)
 	}
 	total := 0
 	var classes []string
